@@ -1,0 +1,18 @@
+//go:build !verif
+
+package process
+
+// Verification hooks are compiled out without the verif build tag.
+
+func vhSpawn(re *RuntimeEnvironment, p *Process) {}
+func vhStep(re *RuntimeEnvironment, p *Process)  {}
+func vhIdle(re *RuntimeEnvironment, p *Process)  {}
+func vhBlock(re *RuntimeEnvironment, p *Process, kind int, ch chan Message, cch chan ControlMessage, cch2 chan ControlMessage) {
+}
+func vhUnblock(re *RuntimeEnvironment, p *Process, arm int)                 {}
+func vhCtlRecv(re *RuntimeEnvironment, p *Process, cch chan ControlMessage) {}
+func vhRecv(re *RuntimeEnvironment, p *Process, m *Message)                 {}
+func vhPrint(re *RuntimeEnvironment, p *Process, label string)              {}
+func vhTcBegin(env *GlobalEnvironment)                                      {}
+func vhTcStep(env *GlobalEnvironment)                                       {}
+func vhTcEnd(env *GlobalEnvironment)                                        {}
